@@ -20,7 +20,7 @@ from . import C03 as base
 from . import C04 as rel
 
 RULE = ("random lists of 1..5 materials (nested structures of depth 0..2 over atoms with data incl. "
-        "ions and energy-dependent isotopes; 30% lists with a repeated material; 6% with an atom "
+        "ions and energy-dependent isotopes; 12% lists of one atom whose σ_i clips at 0; 30% lists with a repeated material; 6% with an atom "
         "without data), weights >= 0 with zeros forced in 35% and all-zero in 5%, density log-uniform "
         "or 0 (5%), wavelength scalar / length-1 / length-n vector; non-trivial when >= 2 materials "
         "and the result is neither zeros nor (None, None, None); distinct by canonical input")
@@ -29,7 +29,12 @@ RULE = ("random lists of 1..5 materials (nested structures of depth 0..2 over at
 def gen_case(rng, pools):
     n = rng.choice([1, 2, 2, 3, 3, 4, 5])
     mats = []
-    for i in range(n):
+    if rng.random() < 0.12:
+        # every material is the same single atom whose σ_i clips at zero (σ_c > σ_s, or an
+        # energy-dependent atom where σ_s ≡ σ_c): the clipping branch of both code paths
+        z, A = rng.choice(pools.clip + pools.endep)
+        mats = [[(rng.choice([1, 2, 0.5, 3]), (z, A, 0))] for _ in range(n)]
+    for i in range(n - len(mats)):
         if mats and rng.random() < 0.3:
             mats.append(rng.choice(mats))
         else:
